@@ -192,7 +192,15 @@ def _body(shard, *choices):
         for _ in range(20):
             if not world.loop.advance():
                 break
-        if got != exp:
+        if kind == "union":
+            # two independent, concurrent producers: only the order *within* each source is
+            # defined (the local pipeline happens to serialise them in emit order)
+            def per_source(L):
+                return ([x for x in L if x < 30], [x for x in L if x >= 30])
+            same = per_source(got) == per_source(exp)
+        else:
+            same = got == exp
+        if not same:
             if sorted(map(repr, got)) == sorted(map(repr, exp)):
                 vd.add("order-differs@%s" % kind)
             elif len(got) < len(exp):
